@@ -53,10 +53,52 @@ import circus.circusd                 # noqa: E402
 import circus.sockets                 # noqa: E402
 from circus.exc import ConflictError  # noqa: E402
 
+# Exceptions raised inside loop callbacks are logged and swallowed by asyncio
+# / tornado.  If such an exception comes out of harness code (an oracle hook
+# with a bug) it must not silently switch the oracle off: the loggers are
+# kept quiet but every logged traceback is inspected, and one whose innermost
+# frame of interest lies in circus_sim (other than a deliberately simulated
+# system-call error) is recorded as a harness error of the running episode.
+HARNESS_ERRORS = []
+
+
+class ScriptedFailure(RuntimeError):
+    """a failure the scenario asked for (hook raising), not a harness bug"""
+
+_HERE = os.path.dirname(os.path.abspath(__file__))
+
+
+class _Capture(logging.Handler):
+    def emit(self, record):
+        ei = record.exc_info
+        if not ei or ei[1] is None:
+            return
+        exc = ei[1]
+        if isinstance(exc, (OSError, zmq.ZMQError, ScriptedFailure)) or \
+                getattr(exc, 'simulated', False):
+            return
+        tb = exc.__traceback__
+        last = None
+        repo = os.path.realpath(REPO)
+        while tb is not None:
+            fn = tb.tb_frame.f_code.co_filename
+            if fn.startswith(_HERE) or fn.startswith(repo) or \
+                    fn.startswith(REPO):
+                last = fn
+            tb = tb.tb_next
+        if last is not None and last.startswith(_HERE) and \
+                len(HARNESS_ERRORS) < 5:
+            import traceback as _tb
+            HARNESS_ERRORS.append(''.join(_tb.format_exception(*ei))[-3000:])
+
+
+_capture = _Capture(level=logging.ERROR)
 for _n in ('circus', 'tornado', 'tornado.application', 'tornado.general',
            'tornado.access', 'asyncio'):
-    logging.getLogger(_n).disabled = True
-logging.getLogger('circus').propagate = False
+    _lg = logging.getLogger(_n)
+    _lg.setLevel(logging.ERROR)
+    _lg.propagate = False
+    _lg.handlers[:] = [_capture]
 
 _REPO_REAL = os.path.realpath(REPO)
 
@@ -401,7 +443,7 @@ class World(object):
             seq = sim.rec('hook', wname, hook_name, out)
             calls.append((seq, sim.now, wname, hook_name, out, kw))
             if out == 'raise':
-                raise RuntimeError('hook %s scripted failure' % hook_name)
+                raise ScriptedFailure('hook %s scripted failure' % hook_name)
             if out == 'true':
                 return True
             if out == 'false':
